@@ -41,7 +41,15 @@ P = {
     "identity": "vf_plugins.IdentityPlugin",
     "rec1": "vf_plugins.RecOne",
     "rec2": "vf_plugins.RecTwo",
+    "rec1m": "vf_plugin_one_mod",  # a MODULE entry (every plugin class of the module), equivalent to rec1
 }
+PLUGIN_ONE_MODULE = '''from ariadne_codegen.plugins.base import Plugin
+
+
+class RecOneFromModule(Plugin):
+    def generate_client_code(self, generated_code: str) -> str:
+        return generated_code + "\\n# hook-order: one\\n"
+'''
 PLUGIN_MODULE = '''from ariadne_codegen.plugins.base import Plugin
 
 
@@ -105,7 +113,7 @@ def _cases(draw):
     elif mode == "noreimports_alone":
         plugins = ["noreimports"]
     elif mode == "order":
-        plugins = d.shuffle(["rec1", "rec2"]) + d.sample(["shorter", "extract"], d.int(0, 1))
+        plugins = d.shuffle([d.choice(["rec1", "rec1m"]), "rec2"]) + d.sample(["shorter", "extract"], d.int(0, 1))
         plugins = d.shuffle(plugins)
     else:
         plugins = d.shuffle(d.sample(["shorter", "extract", "fwd", "noreimports", "identity"], d.int(1, 4)))
@@ -117,6 +125,7 @@ def _cases(draw):
     if len(plugins) >= 2:
         d.tag("plugins>=2")
     case["files"]["vf_plugins.py"] = PLUGIN_MODULE
+    case["files"]["vf_plugin_one_mod.py"] = PLUGIN_ONE_MODULE
     case["features"] = sorted(d.features)
     return case
 
@@ -201,9 +210,9 @@ def run_case(case, scratch):
         body = ast.parse(pfiles.get("__init__.py", "")).body
         if body:
             fail("noreimports_init_not_empty", "", f"__init__.py still has {len(body)} statements")
-    if "rec1" in plugins and "rec2" in plugins:
+    if ("rec1" in plugins or "rec1m" in plugins) and "rec2" in plugins:
         tags = re.findall(r"# hook-order: (\w+)", pfiles.get("client.py", ""))
-        want = ["one" if x == "rec1" else "two" for x in plugins if x in ("rec1", "rec2")]
+        want = ["one" if x in ("rec1", "rec1m") else "two" for x in plugins if x in ("rec1", "rec1m", "rec2")]
         units += 1
         if tags != want:
             fail("hook_order", "", f"plugins {plugins}: generate_client_code hooks applied in order {tags}, configuration order is {want}")
